@@ -431,17 +431,27 @@ func ClearRulesOfResource(res string) error {
 
 // BuildResourceCircuitBreaker builds CircuitBreaker slice from rules. the resource of rules must be equals to res
 func BuildResourceCircuitBreaker(res string, rulesOfRes []*Rule, oldResCbs []CircuitBreaker) []CircuitBreaker {
-	cbs, _ := buildResourceCircuitBreaker(res, rulesOfRes, oldResCbs)
+	// (not recorded in the rule-in-force table: that table is cleaned up by this package's rule manager,
+	// which never hears of the breakers other packages - the outlier module - build and drop)
+	cbs, _ := buildResourceCircuitBreakerTracked(res, rulesOfRes, oldResCbs, false)
 	return cbs
 }
 
-// buildResourceCircuitBreaker also returns the rules a breaker exists for, in the order of the breakers:
-// a generator may decline a rule, and a rule without breaker is not in force.
 func buildResourceCircuitBreaker(res string, rulesOfRes []*Rule, oldResCbs []CircuitBreaker) ([]CircuitBreaker, []*Rule) {
+	return buildResourceCircuitBreakerTracked(res, rulesOfRes, oldResCbs, true)
+}
+
+// buildResourceCircuitBreakerTracked also returns the rules a breaker exists for, in the order of the breakers:
+// a generator may decline a rule, and a rule without breaker is not in force.
+func buildResourceCircuitBreakerTracked(res string, rulesOfRes []*Rule, oldResCbs []CircuitBreaker, track bool) ([]CircuitBreaker, []*Rule) {
 	builtRules := make([]*Rule, 0, len(rulesOfRes))
 	newCbsOfRes := make([]CircuitBreaker, 0, len(rulesOfRes))
 	allOldResCbs := append([]CircuitBreaker(nil), oldResCbs...)
-	defer func() { forgetRulesInForce(allOldResCbs, newCbsOfRes) }()
+	defer func() {
+		if track {
+			forgetRulesInForce(allOldResCbs, newCbsOfRes)
+		}
+	}()
 	// Old breakers that belong to a rule which is unchanged in the new list are reserved for it:
 	// they must not donate their statistic to a modified rule that happens to be listed earlier,
 	// otherwise the unchanged rule is rebuilt from scratch and loses its runtime state.
@@ -541,7 +551,9 @@ func buildResourceCircuitBreaker(res string, rulesOfRes []*Rule, oldResCbs []Cir
 			newCbsOfRes = append(newCbsOfRes, equalOldCb)
 			builtRules = append(builtRules, r)
 			// The rule object in the breaker stays; the rule it stands for from now on is the new one.
-			setRuleInForce(equalOldCb, r)
+			if track {
+				setRuleInForce(equalOldCb, r)
+			}
 			// remove old cb from oldResCbs
 			oldResCbs = append(oldResCbs[:equalIdx], oldResCbs[equalIdx+1:]...)
 			continue
